@@ -136,9 +136,13 @@ package martian
 //@   modifies ctx.mu.wheld, ctx.skipRoundTrip
 //@   ensures ctx.skipRoundTrip && ctxIdle(ctx)
 
+// newID: the random bytes of an ID live in a buffer of the call (nothing shared between the connection goroutines
+// that create contexts at the same time, or two exchanges could get the same ID)
 //@ func newID
 //@   serves C02
-//@   trusted
+//@   modifies nothing
+//@   at call 0 of Read before assert[random-bytes-go-into-a-buffer-of-this-call] fresh(arg0)
+//@   at call 0 of EncodeToString before assert[the-id-is-formatted-from-the-buffer-of-this-call] fresh(arg0)
 //@ func newSession
 //@   serves C02
 //@   requires true
@@ -196,6 +200,21 @@ package martian
 
 // The modifier setters never leave the proxy without a modifier: nil installs the no-op modifier (handle calls both
 // modifiers unconditionally).
+//@ func (*Proxy).SetDownstreamProxy
+//@   serves C04 C01
+//@   requires p != nil
+//@   modifies p.proxyURL, http.Transport.Proxy
+//@   ensures[downstream-proxy-recorded-whatever-the-round-tripper-is] p.proxyURL == proxyURL
+//@ func (*Proxy).SetTimeout
+//@   serves C01 C04
+//@   requires p != nil
+//@   modifies p.timeout
+//@   ensures p.timeout == timeout
+//@ func (*Proxy).SetMITM
+//@   serves C05
+//@   requires p != nil
+//@   modifies p.mitm
+//@   ensures p.mitm == config
 //@ func (*Proxy).SetRequestModifier
 //@   serves C01 C02
 //@   requires p != nil
@@ -294,9 +313,19 @@ package martian
 //@   loop map 0 invariant !anyShapeMatch && ptsconn != nil && ptsconn == as(conn, *trafficshape.Conn) && ptsconn.Context != nil && !ptsconn.Context.Shaping
 //@   at call 0 of Write before assert[a-response-whose-url-matches-no-shape-is-written-unshaped; C18] typeis(conn, *trafficshape.Conn) && !anyShapeMatch ==> as(conn, *trafficshape.Conn).Context != nil && !as(conn, *trafficshape.Conn).Context.Shaping
 //@   at call 0 of readRequest after set result0.gBody0 = result0.Body
-//@   at return all before assert[request-body-drained-and-closed-when-the-exchange-ends; C01] req != nil ==> req.gBody0.bodyClosed
+//@   at return all before assert[request-body-drained-and-closed-when-the-exchange-ends; C01 C03] req != nil ==> req.gBody0.bodyClosed
 //@   at call 0 of link after set didLink = true
+// hWrote / hFlushed: handle wrote a response itself / flushed the buffered writer after that write. A response never
+// stays in the write buffer when handle returns: the client may be waiting for it before it sends anything else.
+//@   modifies hWrote, hFlushed
+//@   at entry 0 before set hWrote = false
+//@   at entry 0 before set hFlushed = false
+//@   at call 0 of Write after set hWrote = true
+//@   at call all of Flush after set hFlushed = hWrote
+//@   at return all before assert[a-written-response-is-flushed-before-handle-returns; C01] hWrote ==> hFlushed
 //@   at return all before assert[context-released] didLink ==> !has(ctxs, req)
+//@ ghost var hWrote bool
+//@ ghost var hFlushed bool
 //@ ghost var up0 int
 //@ ghost var res0 int
 //@ ghost var wr0 int
@@ -343,6 +372,10 @@ package martian
 // tgtW: the buffered writer towards the tunnel target; lastFlushed: the writer flushed last. Whatever still sits in the
 // target writer when the tunnel ends has to be flushed BEFORE the target connection is closed.
 //@ ghost var hsOK bool
+//@ ghost var nBufRead int
+//@ extern func (*bufio.Reader).Read
+//@   modifies p[*], nBufRead
+//@   ensures 0 <= n && n <= len(p) && nBufRead == old(nBufRead) + 1
 //@ ghost var tgtW *bufio.Writer
 //@ ghost var lastFlushed *bufio.Writer
 //@ func (*Proxy).handleConnectRequest
@@ -383,6 +416,9 @@ package martian
 //@   modifies hsOK
 //@   at entry 0 before set hsOK = false
 //@   at call 0 of Handshake after set hsOK = (result == nil)
+//@   modifies nBufRead
+//@   at call 0 of Read after assert[the-first-tunnel-byte-is-taken-from-the-buffered-reader-where-pipelined-tunnel-bytes-already-are; C05 C04] nBufRead == old(nBufRead) + 1
+//@   at call 0 of TLSForHost before assert[fallback-host-for-the-certificate-is-the-connect-authority-the-client-named; C06 C05] arg0 == req.Host
 //@   at call all of setConn before assert[session-switches-to-the-decrypted-connection-only-after-a-successful-handshake; C05] hsOK
 //@   at recv all after set nJoin = nJoin + 1
 //@   at call all of handleConnectRequest$1 before set nCopy = nCopy + 1
